@@ -116,8 +116,24 @@ pub fn run(args: &crate::Args) {
                 let members_now: Vec<&str> = members_owned.iter().map(|s| s.as_str()).collect();
                 let members = &members_now;
                 let before: Vec<(String, String)> = st.get_names().iter().map(|(a, b)| (a.clone(), b.clone())).collect();
-                let scss = format!("a{{b:static_name(\"{q}\")}}\n");
                 let stem = format!("q{qi}");
+                // the call as written in the stylesheet itself, in a partial the stylesheet imports (the top-level file
+                // then does not mention the function at all), or in the dash spelling Sass treats as the same name
+                let scss = match r.below(4) {
+                    0 | 1 => {
+                        stats.hit("form.direct");
+                        format!("a{{b:static_name(\"{q}\")}}\n")
+                    }
+                    2 => {
+                        stats.hit("form.imported-partial");
+                        std::fs::write(root.join("in").join(format!("_part{qi}.scss")), format!("a{{b:static_name(\"{q}\")}}\n")).unwrap();
+                        format!("@import \"part{qi}\";\n")
+                    }
+                    _ => {
+                        stats.hit("form.dash-spelling");
+                        format!("a{{b:static-name(\"{q}\")}}\n")
+                    }
+                };
                 std::fs::write(root.join("in").join(format!("{stem}.scss")), &scss).unwrap();
                 let res = st.add_sass_file(format!("{stem}.scss")).map(|_| ());
                 let after: Vec<(String, String)> = st.get_names().iter().map(|(a, b)| (a.clone(), b.clone())).collect();
